@@ -206,7 +206,7 @@ def all_specs() -> dict[str, dict[str, Any]]:
 
 def shard_corpus(prop: str, tier: str, seed: int, name: str, double: bool) -> dict[str, Any]:
     c = Campaign(prop, tier, seed, LEVEL)
-    enumerate_spec(c, all_specs()[name], double, reorder=True)
+    enumerate_spec(c, all_specs()[name], double, reorder=not double)
     return c.export()
 
 
